@@ -112,6 +112,9 @@ pub struct Case {
     /// directory that does not exist): each is a failing member of the batch
     #[serde(default, skip_serializing_if = "Vec::is_empty")]
     pub bogus_paths: Vec<String>,
+    /// the bogus arguments come before the other path arguments instead of after them
+    #[serde(default, skip_serializing_if = "std::ops::Not::not")]
+    pub bogus_first: bool,
     /// `--files-from` only: the list arrives through a pipe (`--files-from /dev/stdin`), so it
     /// can be read exactly once
     #[serde(default, skip_serializing_if = "std::ops::Not::not")]
@@ -359,6 +362,7 @@ impl Case {
         if self.mode.is_stdin() {
             sc.stdin = self.files.first().map(|f| f.bytes.clone()).unwrap_or_default();
         } else {
+            let paths_at = sc.argv.len();
             match self.path_form {
                 PathForm::Explicit => {
                     if self.path_args.is_empty() {
@@ -399,7 +403,13 @@ impl Case {
                     sc.real_tree = true;
                 }
             }
-            sc.argv.extend(self.bogus_paths.iter().cloned());
+            if self.bogus_first {
+                for (k, b) in self.bogus_paths.iter().enumerate() {
+                    sc.argv.insert(paths_at + k, b.clone());
+                }
+            } else {
+                sc.argv.extend(self.bogus_paths.iter().cloned());
+            }
             sc.files = self.files.clone();
             if sc.real_tree {
                 sc.symlinks = self.symlinks.clone();
